@@ -14,8 +14,8 @@ import (
 
 const pct07 = "3fe6666666666666" // 0.7
 
-func initLine(fee int, minBurn uint64, accts, users []string) string {
-	return fmt.Sprintf("init %d %d 10000000000 100 %s 2 10000000000 10 | %s | %s | %s | | 0 |", fee, minBurn, pct07,
+func initLine(fee int, minBurn, minMint uint64, otherValid int, accts, users []string) string {
+	return fmt.Sprintf("init %d %d %d 100 %s 2 10000000000 10 %d | %s | %s | %s | | 0 |", fee, minBurn, minMint, pct07, otherValid,
 		strings.Join(accts, " "), strings.Join(users, " "), zcnw.KeysSection())
 }
 
@@ -63,13 +63,58 @@ func gen(r *rand.Rand, thorough bool, i int) []string {
 			users = append(users, fmt.Sprintf("%d:%d", a, -int64(r.Intn(3))))
 		}
 	}
-	ops := []string{initLine(fee, minBurn, accts, users)}
+	// min_mint differs from min_burn (smaller or larger): a burn must be judged against min_burn only
+	minMint := []uint64{1, 5, 1000, 20000000000, minBurn + 7}[r.Intn(5)]
+	otherValid := 1
+	if r.Intn(8) == 0 {
+		otherValid = 0 // as shipped: every update-global-config is rejected by Validate
+	}
+	curMin := minBurn // the generator's guess of the saved minimum
+	ops := []string{initLine(fee, minBurn, minMint, otherValid, accts, users)}
 	n := 4 + r.Intn(16)
 	if thorough {
 		n = 4 + r.Intn(80)
 	}
 	cur := append([]int64(nil), nonce...)
 	for k := 0; k < n; k++ {
+		if r.Intn(7) == 0 { // update-global-config: accepted and rejected, by the owner (2) and by others
+			us := 2
+			if r.Intn(5) == 0 {
+				us = 3 + r.Intn(zcnw.NIDs-3)
+			}
+			newMin := []uint64{1, 3, 10, 50, 100, 1000, 10000000000, curMin / 2, curMin * 2}[r.Intn(9)]
+			arg := fmt.Sprintf("mb=%d", newMin)
+			accepted := us == 2 && otherValid == 1 && newMin >= 1
+			switch r.Intn(10) {
+			case 0:
+				arg += ",mf=0" // Validate rejects the whole request
+				accepted = false
+			case 1:
+				arg += fmt.Sprintf(",bad=%d", r.Intn(4))
+				accepted = false
+			case 2:
+				arg += fmt.Sprintf(",mm=%d", 1+r.Intn(2000))
+			case 3:
+				arg = fmt.Sprintf("mm=%d", 1+r.Intn(2000))
+				accepted = false
+			case 4:
+				arg = "!"
+				accepted = false
+			case 5:
+				arg = "mb=0"
+				accepted = false
+			}
+			un := cur[us] + 1
+			ops = append(ops, fmt.Sprintf("updcfg %d 0 %d %d %s", us, r.Intn(10), un, arg))
+			if bal[us] > 20 {
+				cur[us] = un
+				if accepted {
+					curMin = newMin
+				}
+			}
+			minBurn = curMin
+			continue
+		}
 		sender := 2 + r.Intn(zcnw.NIDs-2)
 		if r.Intn(30) == 0 {
 			sender = r.Intn(zcnw.NIDs + 1)
@@ -125,7 +170,9 @@ type acct struct {
 }
 
 type st struct {
-	accts  map[int]acct
+	cfg     string // the configuration stored in the state
+	minBurn uint64
+	accts   map[int]acct
 	users  map[int]int64
 	rest   string // count, registrations, pools, minted: must never change by a burn
 	x      string
@@ -137,15 +184,22 @@ type st struct {
 func parse(out string, isInit bool) (s st, ok bool) {
 	f := strings.Fields(out)
 	if isInit {
-		if len(f) != 8 || f[0] != "ok" {
+		if len(f) != 9 || f[0] != "ok" {
 			return s, false
 		}
 		f = append([]string{"ok", "-", "-"}, f[1:]...)
 	}
-	if len(f) != 10 {
+	if len(f) != 11 || !strings.HasPrefix(f[3], "g=") {
 		return s, false
 	}
 	s.status, s.cls, s.extra = f[0], f[1], f[2]
+	s.cfg = f[3]
+	if g := strings.Split(strings.TrimPrefix(f[3], "g="), ","); len(g) == 8 {
+		s.minBurn, _ = strconv.ParseUint(g[0], 10, 64)
+	} else {
+		return s, false
+	}
+	f = append(f[:3:3], f[4:]...)
 	s.accts = map[int]acct{}
 	s.users = map[int]int64{}
 	if as := strings.TrimPrefix(f[3], "a="); as != "" {
@@ -184,7 +238,6 @@ func oracle(ops, outs []string) *corr.Violation {
 	}
 	var prev st
 	feeOn := false
-	var minBurn uint64
 	for i, op := range ops {
 		w := strings.Fields(op)
 		if w[0] == "init" {
@@ -196,16 +249,27 @@ func oracle(ops, outs []string) *corr.Violation {
 				return mk("unparsable-answer", outs[i], i)
 			}
 			feeOn = w[1] == "1"
-			minBurn, _ = strconv.ParseUint(w[2], 10, 64)
 			prev = s
 			continue
 		}
-		if w[0] != "burn" || outs[i] == "bad-op" {
+		if outs[i] == "bad-op" {
 			continue
 		}
 		cur, ok := parse(outs[i], false)
 		if !ok {
 			return mk("unparsable-answer", outs[i], i)
+		}
+		if w[0] != "burn" {
+			// a configuration update that is not successful leaves the stored configuration alone
+			if cur.status != "success" && cur.cfg != prev.cfg {
+				return mk("rejected-update-changed-config", fmt.Sprintf("%s -> %s", prev.cfg, cur.cfg), i)
+			}
+			prev = cur
+			continue
+		}
+		minBurn := prev.minBurn // the minimum SAVED IN THE STATE before this burn
+		if cur.cfg != prev.cfg {
+			return mk("burn-changed-config", fmt.Sprintf("%s -> %s", prev.cfg, cur.cfg), i)
 		}
 		sender, _ := strconv.Atoi(w[1])
 		value, _ := new(big.Int).SetString(w[2], 10)
@@ -274,6 +338,10 @@ func oracle(ops, outs []string) *corr.Violation {
 				return mk("burn-txn-nonce", "sender nonce not advanced by one", i)
 			}
 		case "failed", "rejected":
+			// a burn of at least the saved minimum to a named address is not refused by the contract
+			if cur.status == "failed" && !below && addr >= 0 {
+				return mk("valid-burn-refused", fmt.Sprintf("value %s >= saved MinBurnAmount %d, address %d, answer %s", value, minBurn, addr, cur.cls), i)
+			}
 			// nothing but fee and nonce (failed) / nothing at all (rejected)
 			for a := 0; a < zcnw.NAddrs; a++ {
 				if prev.users[a] != cur.users[a] {
@@ -320,10 +388,15 @@ func main() {
 			return 400
 		},
 		Fixed: [][]string{
-			{initLine(1, 100, []string{"2:1000:0", "3:500:2", "1:0:0"}, []string{"1:7"}),
+			// warm-up burn, accepted update, REJECTED update that would lower the minimum, burns between the two minima
+			{initLine(1, 100, 7, 1, []string{"2:100000:0", "3:5000:0"}, nil),
+				"burn 3 100 1 1 a0", "updcfg 2 0 1 1 mb=300", "burn 3 200 1 2 a0", "burn 3 300 1 3 a0",
+				"updcfg 2 0 1 2 mb=50,mf=0", "burn 3 60 1 4 a0", "burn 3 299 1 5 a1", "updcfg 3 0 1 6 mb=1", "burn 3 2 1 7 a0",
+				"updcfg 2 0 1 3 mb=50,bad=1", "burn 3 60 1 8 a0", "updcfg 2 0 1 4 mb=50", "burn 3 60 1 9 a0", "burn 3 49 1 10 a0", "burn 3 7 1 11 a2"},
+			{initLine(1, 100, 10000000000, 1, []string{"2:1000:0", "3:500:2", "1:0:0"}, []string{"1:7"}),
 				"burn 2 100 5 1 a0", "burn 2 100 5 2 a0", "burn 3 150 5 3 a1", "burn 2 99 5 3 a0", "burn 2 100 5 4 e0", "burn 2 100 5 5 m1", "burn 2 100 5 6 a2", "burn 2 5000 5 7 a0", "burn 2 100 5 7 a0"},
-			{initLine(0, 1, []string{"2:10:0"}, []string{"0:9223372036854775806"}), "burn 2 1 0 1 a0", "burn 2 1 0 2 a0", "burn 2 1 0 3 a0"},
-			{initLine(1, 10, []string{"1:1000:0", "2:18446744073709551615:0", "0:5:0"}, nil), "burn 1 10 1 1 a0", "burn 2 10 18446744073709551615 1 a0", "burn 2 18446744073709551615 0 1 a0", "burn 0 0 0 1 a3"},
+			{initLine(0, 1, 5, 1, []string{"2:10:0"}, []string{"0:9223372036854775806"}), "burn 2 1 0 1 a0", "burn 2 1 0 2 a0", "burn 2 1 0 3 a0"},
+			{initLine(1, 10, 3, 0, []string{"1:1000:0", "2:18446744073709551615:0", "0:5:0"}, nil), "burn 1 10 1 1 a0", "burn 2 10 18446744073709551615 1 a0", "burn 2 18446744073709551615 0 1 a0", "burn 0 0 0 1 a3"},
 		},
 		Extra: func() map[string]interface{} {
 			m := map[string]interface{}{}
